@@ -329,7 +329,7 @@ pub static C13: PropSpec = PropSpec {
     id: "C13",
     simulator: "S-sim (+ reader facades)",
     level: "exploration",
-    runs: |t| if t == Tier::Thorough { 2_000_000 } else { 150_000 },
+    runs: |t| if t == Tier::Thorough { 20_000_000 } else { 150_000 },
     enumerated: |_| 0,
     run,
     rule: "metamorphic pairs: a message from the hello / rpc-reply (ok, data, bare, load-configuration-results, rpc-error bodies) / running-configuration / ephemeral-configuration grammars is serialised canonically and under a seeded composition of rewrites (namespace prefix vs default, inter-element whitespace, whitespace around token-valued text, comments, attribute order, attribute quote, XML declaration, <x/> vs <x></x>) and both are parsed by the real readers (through a real Session for hello and replies, through the reader facade for configuration data). Non-trivial = at least one rewrite was applied; distinct = distinct event-log hash (includes both serialisations)",
